@@ -326,6 +326,59 @@ def run(ctx: Ctx):
     # fault in a batch of one / at the last element of a short last partition
     one(1, None, ("threads", 2), fail=0)
     one(101, 100, ("explore", 7, 2), fail=100)
+    # ---- 3b. the failure may be of any exception type (an injected one of each common built-in type, and a genuine kernel
+    # failure on an invalid shower energy): it must surface as an error of the batch call
+    nb = 130
+    evb = tuple(a[:nb].copy() for a in ev)
+    for t, exc in enumerate(["ValueError", "KeyError", "ZeroDivisionError", "TypeError", "IndexError", "RuntimeError", "OverflowError", "StopIteration"]):
+        k = [0, 57, 100, 129][t % 4]
+        for spec_name, kw in ((("synchronous", {}),) if not ctx.thorough and t % 2 else (("synchronous", {}), ("threads", {"num_workers": 4}))):
+            ctx.case(("fault-type", exc, k, spec_name))
+            ctx.count("fault.exception_types")
+            try:
+                with quiet(), dask.config.set(scheduler=spec_name, **kw):
+                    out = kern(*evb, xs.RaisingCloud(k, exc))
+                ctx.violation("CphotAng.__call__", "failure-swallowed", f"event {k} raised {exc} inside the kernel but the batch call returned normally ({len(np.atleast_1d(out[0]))} results for {nb} events)",
+                              {"batch": nb, "fail_at": k, "exception": exc, "scheduler": spec_name})
+            except Exception:  # noqa
+                pass
+    for bad_e in (float("nan"), -1.0):
+        for k in (0, 57, 129):
+            e2 = evb[2].copy(); e2[k] = bad_e
+            try:
+                with quiet():
+                    kern.run(evb[0][k], evb[1][k], e2[k], evb[3][k], evb[4][k], None)
+                single_raises = False
+            except Exception:  # noqa
+                single_raises = True
+            if not single_raises:
+                continue
+            ctx.case(("fault-kernel", bad_e if bad_e == bad_e else "nan", k))
+            ctx.count("fault.kernel_failures")
+            try:
+                with quiet(), dask.config.set(scheduler="synchronous"):
+                    out = kern(evb[0], evb[1], e2, evb[3], evb[4], None)
+                ctx.violation("CphotAng.__call__", "failure-swallowed", f"evaluating event {k} alone raises, but the batch call returned normally ({len(np.atleast_1d(out[0]))} results for {nb} events)",
+                              {"batch": nb, "fail_at": k, "shower_energy": repr(bad_e), "scheduler": "synchronous"})
+            except Exception:  # noqa
+                pass
+    # ---- 3c. repeated showers at different ground sites under a location-dependent cloud model: every event is evaluated at ITS site
+    nr = 120
+    base = make_events(rng, nr // 3)
+    rep = [np.repeat(a, 3) for a in base[:3]]
+    sites = np.arange(nr, dtype=np.float64)
+    tops = [-float("inf"), 2.0, 6.0, float(rng.uniform(0.5, 9.0)), -float("inf")]
+    cl = xs.SiteCloud(tops)
+    evr = (rep[0], rep[1], rep[2], sites, np.zeros(nr))
+    refr = reference(kern, evr, cl)
+    for spec_name, kw in (("synchronous", {}), ("threads", {"num_workers": 4})):
+        with quiet(), dask.config.set(scheduler=spec_name, **kw):
+            got = kern(*evr, cl)
+        ctx.case(("repeated-showers-sites", spec_name))
+        want = ref_arrays(refr, nr)
+        if not (same_bits(got[0], want[0]) and same_bits(got[1], want[1])):
+            ctx.violation("CphotAng.__call__", "batch-differs-from-one-at-a-time", "repeated showers at different ground sites under a location-dependent cloud model: " + describe_mismatch(got, want),
+                          {"batch": nr, "scheduler": spec_name, "cloud_tops_by_site_mod_5": [repr(x) for x in tops]})
     # ---- 4. inputs and kernel object untouched over the whole exploration
     if any(not np.array_equal(a, b) for a, b in zip(ev, ev0)):
         ctx.violation("CphotAng.__call__", "mutates-input", "an input array was modified by the batch call", {})
